@@ -11,9 +11,20 @@ import SmppVerif.Model.Policy
 namespace SmppVerif.SenderLoop
 open SmppVerif SmppVerif.Pdu SmppVerif.Sender SmppVerif.Policy
 
+/-- `ESME._ref_seq_generator = SimpleSequenceGenerator(0, 255)`: Python's `sequence_num` starts at -1 (`none` here,
+    the generators of Model/Policy.lean hold a natural number because their minimum is at least 1) -/
+structure RefGen where
+  cur : Option Nat
+  deriving DecidableEq, Repr
+
+def RefGen.next (g : RefGen) : RefGen × Nat :=
+  match g.cur with
+  | none => (⟨some 0⟩, 0)
+  | some c => if c = 255 then (⟨some 0⟩, 0) else (⟨some (c + 1)⟩, c + 1)
+
 structure Gens where
   seq : SeqGen          -- ESME.sequence_generator
-  ref : SeqGen          -- ESME._ref_seq_generator (0..255)
+  ref : RefGen          -- ESME._ref_seq_generator (0..255)
   deriving DecidableEq, Repr
 
 /-- `_send_data` for each prepared message in turn: draw the sequence number, check it, build the PDU, write it -/
